@@ -216,7 +216,13 @@ def run(ctx):
                 mv = [Fraction(x) for x in m.group(2).split(",")]
                 if ((lv - mv[0]) / fr).denominator == 1:
                     tags.append("value_in_class_not_least_magnitude")
-        if name == "rel_gen":
+        if name == "is_discrete":
+            if sta and re.search(r"zl=[1-9]", sta):
+                tags.append("zero_line_in_gen_sys")
+        if name == "is_bounded":
+            if sta and re.search(r"z[lq]=[1-9]", sta):
+                tags.append("zero_generator_in_gen_sys")
+        if name in ("rel_gen", "is_universe"):
             if state == "EMPTY" and stb and "-EM" in stb:
                 tags.append("receiver_empty_not_yet_detected")
         if name == "rel_con":
@@ -239,10 +245,8 @@ def run(ctx):
         nxt = J[n] if n < len(J) else ""
         return not nxt.startswith("exc")
 
-    def candidates(hist, ln, s, depth=0):
-        """operations that can be responsible for the state of slot s observed at line ln: everything on its
-        lineage since the last description that synchronised model and library"""
-        out = []
+    def lineage(hist, ln, s):
+        """events before line ln on the lineage of slot s, most recent first; follows swap / copy / assign"""
         cs = s
         for (n, t) in reversed(hist.lines):
             if n >= ln:
@@ -250,47 +254,64 @@ def run(ctx):
             tt = t.split()
             if len(tt) < 3:
                 continue
-            if tt[0] == "obs" and tt[1] == str(cs) and tt[2] in DESC:
-                v = V.get(n, ("", ""))
-                if v[0] in ("ok", "MISMATCH") or "adopted" in v[1]:
-                    break                       # synchronised here
-            if tt[0] == "obs" and tt[1] == str(cs) and tt[2] == "rel_con" and tt[3] != "0":
-                out.append((n, t))              # an observer that rewrites the generator system in place
+            if tt[0] == "obs" and tt[1] == str(cs):
+                yield (n, t, cs)
+                continue
             if tt[0] != "op" or not op_effective(n):
                 continue
             name = tt[2]
             if name == "swap":
                 a, b = tt[1], tt[3]
-                if cs == int(a) if a.isdigit() else False:
-                    out.append((n, t)); cs = int(b); continue
-                if b.isdigit() and cs == int(b):
-                    out.append((n, t)); cs = int(a); continue
+                if a.isdigit() and cs == int(a):
+                    yield (n, t, cs); cs = int(b)
+                elif b.isdigit() and cs == int(b):
+                    yield (n, t, cs); cs = int(a)
                 continue
             if tt[1] != str(cs):
                 continue
-            out.append((n, t))
+            yield (n, t, cs)
             if name in ("copy", "assign"):
-                cs = int(tt[3]); continue
-            if name.startswith("new_"):
-                break
-            if name in BINARY and depth < 3 and tt[3].isdigit() and int(tt[3]) != cs:
+                cs = int(tt[3])
+            elif name.startswith("new_"):
+                return
+
+    def candidates(hist, ln, s, depth=0):
+        """operations that can be responsible for the state of slot s observed at line ln: everything on its
+        lineage since the last description that synchronised model and library; observers that rewrite the
+        representation in place (latent effect) are collected beyond that point too"""
+        out = []
+        synced = False
+        for (n, t, cs) in lineage(hist, ln, s):
+            tt = t.split()
+            if tt[0] == "obs":
+                if tt[2] in DESC:
+                    v = V.get(n, ("", ""))
+                    if v[0] in ("ok", "MISMATCH") or "adopted" in v[1]:
+                        synced = True
+                if tt[2] == "rel_con" and tt[3] != "0":
+                    out.append((n, t))          # an observer that rewrites the generator system in place
+                continue
+            if synced:
+                continue
+            out.append((n, t))
+            if tt[2] in BINARY and depth < 3 and tt[3].isdigit() and int(tt[3]) != cs:
                 out += candidates(hist, n, int(tt[3]), depth + 1)
         return out
 
-    def producer_of_empty(hist, lo, s):
-        """an empty reference grid stays empty under every mutator: go back to the operation that produced it"""
+    def producer_of_empty(hist, ln, s):
+        """an empty reference grid stays empty under every mutator: the operations back to the one that produced it"""
         chain = []
-        while lo is not None:
-            n, t = lo
+        for (n, t, cs) in lineage(hist, ln, s):
+            tt = t.split()
+            if tt[0] != "op":
+                continue
+            chain.append((n, t))
             _, vinfo = V.get(n, ("", ""))
             pre = parse_info(vinfo.split("pre:", 1)[1])[1] if "pre:" in vinfo else None
-            if t.split()[2] in OVERWRITE or pre != "EMPTY" or slot_of(t) != s:
+            if tt[2] in ("copy", "assign") or tt[2].startswith("new_"):
                 break
-            prev = last_op(hist, n, s)
-            if prev is None:
+            if tt[2] != "swap" and pre != "EMPTY":
                 break
-            lo = prev
-            chain.append(lo)
         return chain
 
     def op_site_tags(hist, n, t, name, detail):
@@ -338,13 +359,13 @@ def run(ctx):
         if ln in blame:
             cands.append(blame[ln])
         cands += candidates(hist, ln, s)
-        if not cands:
-            lo = last_op(hist, ln, s)
-            if lo is None:
-                return "unknown", [], None
-            cands = [lo]
+        lo = last_op(hist, ln, s)
+        if lo is not None:
+            cands.append(lo)
         if "model=EMPTY" in detail:
-            cands += producer_of_empty(hist, cands[0], s)
+            cands += producer_of_empty(hist, ln, s)
+        if not cands:
+            return "unknown", [], None
         seen, uniq = set(), []
         for c in cands:
             if c[0] not in seen:
@@ -354,10 +375,14 @@ def run(ctx):
             site, tags = op_site_tags(hist, n, t, name, detail)
             if "prev=differ" in detail:
                 tags.append("descriptions_disagree")
-            if first is None:
+            if first is None and t.startswith("op "):
                 first = (site, tags, (n, t))
             if ctx.match_known({"site": site, "tags": tags}) is not None:
                 return site, tags, (n, t)
+        if first is None:
+            n, t = uniq[0]
+            site, tags = op_site_tags(hist, n, t, name, detail)
+            first = (site, tags, (n, t))
         return first
 
     reported = collections.Counter()
@@ -402,7 +427,8 @@ def run(ctx):
                 dim, state = parse_info(m.group(5))
                 if m.group(4) != "-":
                     # an observer crashed: every operation on the lineage of that slot is a candidate
-                    cands = candidates(hist, ln, int(m.group(4)))
+                    # (a corrupted representation can survive descriptions that still print correctly)
+                    cands = [(n, t) for (n, t, _) in lineage(hist, ln, int(m.group(4))) if t.startswith("op ")]
                 else:
                     cands = [(opl, J[opl - 1])] + candidates(hist, opl, opslot)
                     if len(J[opl - 1].split()) > 3 and J[opl - 1].split()[2] in BINARY and J[opl - 1].split()[3].isdigit():
@@ -538,7 +564,7 @@ def run(ctx):
             if not tt:
                 continue
             if tt[0] == "st":
-                last_st[tt[1]] = " ".join(x for x in tt[2:] if not x.startswith("div="))
+                last_st[tt[1]] = " ".join(x for x in tt[2:] if not x.startswith("div=") and not x.startswith("zl=") and not x.startswith("zq="))
             elif tt[0] == "op":
                 ops_hist[api_of(t)] += 1
                 if tt[1] in last_st:
